@@ -81,6 +81,12 @@ def Request.WF (r : Request) : Prop :=
   r.nh ∈ Spec.commonNH ∧ r.ht ∈ Spec.headerTypes ∧ r.hst ∈ Spec.subTypes r.ht ∧ r.tc.WF ∧ r.length = r.data.length ∧
   r.length < 65536 ∧ r.area.WF ∧ r.maxHopLimit < 256
 
+/-- what the BTP-Data.request primitive allows.  NOTHING is assumed about `declaredLength` (the `length` attribute of the
+request: default 0, stale after `from_dict`, …) -/
+def BtpRequest.WF (q : BtpRequest) : Prop :=
+  (q.btpType = 1 ∨ q.btpType = 2) ∧ q.sourcePort < 65536 ∧ q.destinationPort < 65536 ∧ q.destinationPortInfo < 65536 ∧
+  q.ht ∈ Spec.headerTypes ∧ q.hst ∈ Spec.subTypes q.ht ∧ q.tc.WF ∧ 4 + q.data.length < 65536 ∧ q.area.WF ∧ q.maxHopLimit < 256
+
 /-! ### field settings the standard prescribes for originated packets (EN 302 636-4-1 clause 10.3) -/
 /-- Basic Header: version = itsGnProtocolVersion, NH = 1 (Common Header), reserved 0, LT octet (multiplier = its 6
 most significant bits, base = its 2 least significant bits; WHICH octet: `LTSpec.IsLifetimeOctet`), RHL.
